@@ -251,6 +251,21 @@ fn codec_sweep<X: Sx>(ctx: &Ctx, idx: u64, which: usize) {
                 check(ctx, c, suite, "truncated", &k.to_string(), x, k % 32 != 0 || c.slots.len() <= 1);
             }
         }
+        // every whole-scalar truncation down to nothing (a decoder may accept a shorter well-formed-looking prefix)
+        let mut cut = 32;
+        while cut <= honest.len() {
+            let x = &honest[..honest.len() - cut];
+            // a prefix that is itself a well-formed shorter object of the same type is legitimate for the scalar lists
+            // (ZKPoK: >= 2 scalars; Commitment: point + >= 2 scalars; PoK: 3 points + >= 4 scalars): everything else is forbidden
+            let well_formed = match c.name {
+                "ZKPoK" => x.len() >= 64 && x.len() % 32 == 0,
+                "Commitment" => x.len() >= 48 + 64 && (x.len() - 48) % 32 == 0,
+                "PoKSignature" => x.len() >= 144 + 128 && (x.len() - 144) % 32 == 0,
+                _ => false,
+            };
+            check(ctx, c, suite, "truncated-scalars", &(cut / 32).to_string(), x, !well_formed);
+            cut += 32;
+        }
         check(ctx, c, suite, "empty", "-", &[], true);
     }
     // the same object in another representation, or glued to a copy of itself: wrong lengths and formats
